@@ -193,7 +193,22 @@ static inline double cmb_wtdsummary_variance(const struct cmb_wtdsummary *wsp)
 {
     cmb_assert_release(wsp != NULL);
 
-    return cmb_datasummary_variance((struct cmb_datasummary *)wsp);
+    /*
+     * The moments held in the summary are weighted sums, so they have to be
+     * normalized by the summed weights (not the sample count) for the result
+     * to be independent of the unit the weights are measured in. The small
+     * sample correction is count based, so that unit weights give the same
+     * result as an unweighted data summary.
+     */
+    const struct cmb_datasummary *dsp = (const struct cmb_datasummary *)wsp;
+    cmb_assert_release(dsp->cookie == CMI_INITIALIZED);
+    double r = 0.0;
+    if ((dsp->count > 1u) && (wsp->wsum > 0.0)) {
+        const double dn = (double)dsp->count;
+        r = (dsp->m2 / wsp->wsum) * (dn / (dn - 1.0));
+    }
+
+    return r;
 }
 
 /**
@@ -209,7 +224,7 @@ static inline double cmb_wtdsummary_stddev(const struct cmb_wtdsummary *wsp)
 {
     cmb_assert_release(wsp != NULL);
 
-    return cmb_datasummary_stddev((struct cmb_datasummary *)wsp);
+    return sqrt(cmb_wtdsummary_variance(wsp));
 }
 
 /**
@@ -225,7 +240,17 @@ static inline double cmb_wtdsummary_skewness(const struct cmb_wtdsummary *wsp)
 {
     cmb_assert_release(wsp != NULL);
 
-    return cmb_datasummary_skewness((struct cmb_datasummary *)wsp);
+    const struct cmb_datasummary *dsp = (const struct cmb_datasummary *)wsp;
+    cmb_assert_release(dsp->cookie == CMI_INITIALIZED);
+    double r = 0.0;
+    if ((dsp->count > 2u) && (wsp->wsum > 0.0)) {
+        /* As cmb_datasummary_skewness, with the summed weights as the mass */
+        const double dn = (double)dsp->count;
+        const double g = sqrt(wsp->wsum) * dsp->m3 / pow(dsp->m2, 1.5);
+        r = sqrt(dn * (dn - 1.0)) * g / (dn - 2.0);
+    }
+
+    return r;
 }
 
 /**
@@ -241,7 +266,17 @@ static inline double cmb_wtdsummary_kurtosis(const struct cmb_wtdsummary *wsp)
 {
     cmb_assert_release(wsp != NULL);
 
-    return cmb_datasummary_kurtosis((struct cmb_datasummary *)wsp);
+    const struct cmb_datasummary *dsp = (const struct cmb_datasummary *)wsp;
+    cmb_assert_release(dsp->cookie == CMI_INITIALIZED);
+    double r = 0.0;
+    if ((dsp->count > 3u) && (wsp->wsum > 0.0)) {
+        /* As cmb_datasummary_kurtosis, with the summed weights as the mass */
+        const double dn = (double)dsp->count;
+        const double g = wsp->wsum * dsp->m4 / (dsp->m2 * dsp->m2) - 3.0;
+        r = (dn - 1.0) / ((dn - 2.0) * (dn - 3.0)) * ((dn + 1.0) * g + 6.0);
+    }
+
+    return r;
 }
 
 /**
